@@ -11,6 +11,10 @@ use serde_json::{json, Value};
 pub struct Inst {
     pub l: Logical,
     pub asyncw: bool,
+    /// the archive is first written to memory and opened again, untouched: the write under test is a re-save
+    /// whose tiles live in the backing reader
+    #[serde(default)]
+    pub backed: bool,
 }
 
 pub struct Prep {
@@ -23,6 +27,10 @@ pub struct Prep {
 /// write the recipe into a fresh recording stream positioned at `start`
 pub fn write_recorded(l: &Logical, asyncw: bool, sched: Sched, prefill: Vec<u8>, start: u64) -> Result<(std::io::Result<()>, Stream), Fail> {
     let a = l.build(asyncw).map_err(|e| Fail::new("harness", e))?;
+    write_recorded_from(a, asyncw, sched, prefill, start)
+}
+
+pub fn write_recorded_from(a: crate::libx::Arch, asyncw: bool, sched: Sched, prefill: Vec<u8>, start: u64) -> Result<(std::io::Result<()>, Stream), Fail> {
     let mut s = Stream::new(prefill, start, sched, true);
     let r = guarded(if asyncw { "to_async_writer" } else { "to_writer" }, || match a {
         crate::libx::Arch::New(pm) => pm.to_writer(&mut s),
@@ -34,7 +42,15 @@ pub fn write_recorded(l: &Logical, asyncw: bool, sched: Sched, prefill: Vec<u8>,
 }
 
 pub fn prepare(i: &Inst) -> Result<Prep, Fail> {
-    let (r, s) = write_recorded(&i.l, i.asyncw, Sched::none(), Vec::new(), 0).map_err(|f| Fail::new(format!("C17/{}", f.sig), f.msg))?;
+    let (r, s) = if i.backed {
+        let a = i.l.build(i.asyncw).map_err(|e| Fail::new("C17/harness", e))?;
+        let bytes = a.write().map_err(|e| Fail::new("C17/harness", format!("first write failed: {e}")))?;
+        let a2 = if i.asyncw { crate::libx::Arch::open_async(bytes) } else { crate::libx::Arch::open_sync(bytes) }.map_err(|e| Fail::new("C17/harness", format!("reopen failed: {e}")))?;
+        write_recorded_from(a2, i.asyncw, Sched::none(), Vec::new(), 0)
+    } else {
+        write_recorded(&i.l, i.asyncw, Sched::none(), Vec::new(), 0)
+    }
+    .map_err(|f| Fail::new(format!("C17/{}", f.sig), f.msg))?;
     r.map_err(|e| Fail::new("C17/harness", format!("fault-free write failed: {e}")))?;
     let log = s.log();
     let complete = s.data();
@@ -70,7 +86,7 @@ fn check_crash(i: &Inst, p: &Prep, k: usize) -> CaseResult {
         Ok(Err(_)) => {
             ensure!(!same, format!("C17/complete-image-rejected/{kind}"), "the complete archive is rejected by the reader");
             let mid = k > p.first_data_write && k <= p.header_write;
-            Ok(Meta::new(mid).label(mid, "between-first-data-write-and-header").label(i.asyncw, "async").label(!i.asyncw, "sync").label(true, super::c01::codec_label(i.l.settings.internal)).label(super::c01::spilled(&p.complete), "leaf-spill"))
+            Ok(Meta::new(mid).label(mid, "between-first-data-write-and-header").label(i.asyncw, "async").label(!i.asyncw, "sync").label(true, super::c01::codec_label(i.l.settings.internal)).label(super::c01::spilled(&p.complete), "leaf-spill").label(i.backed, "re-save-of-opened-archive").label(i.l.pool.last().map_or(false, |c| c.kind == 9), "last-tile-ends-in-zeros"))
         }
     }
 }
@@ -80,19 +96,27 @@ pub fn instances(ctx: &Ctx) -> Vec<Inst> {
     let ls = sample(ctx.seed ^ 0xC17, n, &logical::logical(Gen { max_tiles: 200, allow_big: false, allow_adv: false, full_floats: false }));
     let mut out: Vec<Inst> = ls.into_iter().enumerate().map(|(k, mut l)| {
         l.settings.internal = 1 + (k % 4) as u8;
-        Inst { l, asyncw: k % 2 == 1 }
+        if k % 5 == 3 && !l.tiles.is_empty() {
+            // the tile with the highest id ends in thousands of zero bytes (uncompressed raster / elevation data)
+            l.pool.push(crate::model::ContentSpec { kind: 9, len: 4200 + (k as u32 * 131) % 9000, seed: k as u32 });
+            if let Some(t) = l.tiles.last_mut() {
+                t.1 = u16::MAX;
+            }
+        }
+        Inst { l, asyncw: k % 2 == 1, backed: k % 3 == 2 }
     }).collect();
     for k in 0..ctx.tier.pick(8, 24) {
         // with leaf spill; uncompressed ones produce tens of thousands of operations (thorough tier)
         let internal = if ctx.tier == crate::engine::Tier::Quick { 2 + (k % 3) as u8 } else { 1 + (k % 4) as u8 };
-        out.push(Inst { l: logical::large(14_000 + 1000 * k, 170 + k as u64, internal), asyncw: k % 2 == 0 });
+        out.push(Inst { l: logical::large(14_000 + 1000 * k, 170 + k as u64, internal), asyncw: k % 2 == 0, backed: k % 4 == 1 });
     }
     out
 }
 
 pub fn run(ctx: &Ctx) {
     ctx.rec.set_rule(
-        "crash-point enumeration: sampled logical archives (with and without leaf spill, 4 internal compressions, sync and async writer) are written into a fresh recording \
+        "crash-point enumeration: sampled logical archives (with and without leaf spill, 4 internal compressions, sync and async writer; built in memory, or written once, opened again and re-saved \
+         untouched; every fifth with a highest-id tile that ends in 4-8 KiB of zero bytes) are written into a fresh recording \
          stream; the N seek/write/flush/close operations are logged and for EVERY k in [0, N] the first k operations are replayed into an empty zero-filling stream (each write \
          atomic); PMTiles::from_bytes(image_k) must be Err unless image_k is byte-identical to the complete archive. Non-trivial: k lies after the first data write and not after \
          the header write. (instance, k) pairs are distinct by construction and counted.",
@@ -135,7 +159,7 @@ pub fn run(ctx: &Ctx) {
         let (idx, k) = locate(i);
         json!({"inst": preps[idx].0, "k": k, "n": preps[idx].1.log.len()})
     });
-    for c in ["between-first-data-write-and-header", "async", "sync", "leaf-spill", "internal-none", "internal-gzip", "internal-brotli", "internal-zstd", "image-identical-to-complete"] {
+    for c in ["between-first-data-write-and-header", "async", "sync", "leaf-spill", "internal-none", "internal-gzip", "internal-brotli", "internal-zstd", "image-identical-to-complete", "re-save-of-opened-archive", "last-tile-ends-in-zeros"] {
         ctx.rec.floor(c, 4);
     }
 }
